@@ -11,7 +11,9 @@ CLASSES = {
   'ChannelFactory': dict(extern=True, path=None, fields={}, bases=[]),
   'HeapBalancerSink': dict(path='HeapBalancerSink', bases=['LoadBalancerSink'], fields={
     '_heap': 'list[Node]', '_size': 'int', '_downq': 'Node?', '_open': 'bool',
-    '_no_members': 'Channel'}),
+    '_no_members': 'Channel',
+    # ghost (C05): the node the last _AddSink created / the last _RemoveSink took out; endpoint -> member node
+    'g_added': 'Node?', 'g_removed': 'Node?', 'g_node': 'dict[any,Node]'}, ghost=['g_added', 'g_removed', 'g_node']),
   'ChannelState': dict(file='scales/constants.py', path='ChannelState'),
   'Int': dict(file='scales/constants.py', path='Int'),
   'MessageProperties': dict(file='scales/constants.py', path='MessageProperties'),
@@ -63,6 +65,17 @@ PREDICATES.update({
      'forall_ref(r, Node, implies(r.g_inq and r.downq is not None, r.downq != s._downq and r.downq.g_rank > r.g_rank), r.downq) and '
      'forall_ref((r1, r2), Node, implies(r1.g_inq and r2.g_inq and r1.downq is not None and r1.downq == r2.downq, r1 == r2), (r1.downq, r2.downq))'),
   'HeapInv': (['s'], 'HI_shape(s) and HI_bij(s) and HI_ord(s) and HI_nodes(s) and HI_loads(s) and HI_chain(s)'),
+  # ---- C05: the dispatch targets (nodes in the heap) are exactly the members of the server set -------------------
+  # every target is a current member
+  'HM_sub': (['s'], 'forall_ref(r, Node, implies(inheap(s._heap, r), r.endpoint is not None and has_key(s._servers, r.endpoint)), r.index)'),
+  # no endpoint has two nodes
+  'HM_inj': (['s'], 'forall_ref((r1, r2), Node, implies(inheap(s._heap, r1) and inheap(s._heap, r2) and r1.endpoint == r2.endpoint, r1 == r2), (r1.index, r2.index))'),
+  # every current member is a target (ghost map endpoint -> its node)
+  'HM_sup': (['s'], 'forall(e, "any", implies(has_key(s._servers, e), has_key(s.g_node, e) and allocated(s.g_node[e]))) and '
+                    'forall(e, "any", implies(has_key(s._servers, e), inheap(s._heap, s.g_node[e]))) and '
+                    'forall(e, "any", implies(has_key(s._servers, e), s.g_node[e].endpoint == e))'),
+  'HM_all': (['s'], 's._heap[0].endpoint is None and allocated(s._servers) and allocated(s.g_node) and HM_sub(s) and HM_inj(s) and HM_sup(s)'),
+  'HeapMem': (['s'], 'HeapInv(s) and HM_all(s)'),
 })
 
 _SWAP_FRAME = [
@@ -84,6 +97,7 @@ FUNCTIONS = {
       'hbij(heap)', 'hwf(heap)',
     ],
     modifies=['list[Node].items', 'Node.index'],
+    aspects={'mem': dict(ensures=['forall_ref(r, Node, inheap(heap, r) == old(inheap(heap, r)), r.index)'], props=['C05'])},
     props=['C03'],
   ),
 
@@ -117,6 +131,7 @@ FUNCTIONS = {
       ],
       decreases='j + 1 - i if j + 1 - i > 0 else 0',
     )},
+    aspects={'mem': dict(ensures=['forall_ref(r, Node, inheap(heap, r) == old(inheap(heap, r)), r.index)'], loops={0: ['forall_ref(r, Node, inheap(heap, r) == old(inheap(heap, r)), r.index)']}, props=['C05'])},
     props=['C03'],
   ),
 
@@ -156,6 +171,7 @@ FUNCTIONS = {
       ],
       decreases='i',
     )},
+    aspects={'mem': dict(ensures=['forall_ref(r, Node, inheap(heap, r) == old(inheap(heap, r)), r.index)'], loops={0: ['forall_ref(r, Node, inheap(heap, r) == old(inheap(heap, r)), r.index)']}, props=['C05'])},
     props=['C03'],
   ),
 
@@ -196,6 +212,8 @@ FUNCTIONS = {
       # the root is a minimum of the repository's own (load, index) order over all members
       'forall(k, 1, self._size + 1, hle(result, self._heap[k]))',
     ],
+    # C05: taking a member for a request changes nobody's membership
+    aspects={'mem': dict(ensures=['forall_ref(r, Node, inheap(self._heap, r) == old(inheap(self._heap, r)), r.index)', 'implies(old(HM_all(self)), HM_all(self))'], loops={0: ['forall_ref(r, Node, inheap(self._heap, r) == old(inheap(self._heap, r)), r.index)', 'implies(old(HM_all(self)), HM_all(self))'], 1: ['forall_ref(r, Node, inheap(self._heap, r) == old(inheap(self._heap, r)), r.index)', 'implies(old(HM_all(self)), HM_all(self))']}, props=['C05'])},
     lemmas=['k: lemma_root_min(self._heap, self._size, k)'],
     modifies=['Node.load', 'Node.index', 'Node.downq', 'Node.g_inq', 'Node.g_rank', 'list[Node].items', 'HeapBalancerSink._downq'],
     ghost=[
@@ -223,6 +241,7 @@ FUNCTIONS = {
              # a node that has left the heap is closed exactly when its last request is released
              'implies(old(n.index) < 0 and n.g_out == 0, n.channel.state == ChannelState.Closed or n.channel.state == old(n.channel.state))',
              'implies(not (old(n.index) < 0 and n.g_out == 0), forall_ref(c, Channel, c.state == old(c.state), c.state))'],
+    aspects={'mem': dict(ensures=['forall_ref(r, Node, inheap(self._heap, r) == old(inheap(self._heap, r)), r.index)', 'implies(old(HM_all(self)), HM_all(self))'], props=['C05'])},
     modifies=['Node.load', 'Node.index', 'Node.g_out', 'list[Node].items', 'Channel.state', 'Channel.g_closes'],
     ghost=[
       {'after': 'n.load -= 1', 'do': ['n.g_out = n.g_out - 1']},
@@ -255,12 +274,18 @@ def lemma_root_min(heap, n, k):
              'self._heap[self._size].endpoint == endpoint or exists(k, 1, self._size + 1, self._heap[k].endpoint == endpoint and self._heap[k].g_out == 0 and fresh(self._heap[k]))',
              'forall_ref(r, Node, implies(old(allocated(r)), r.g_out == old(r.g_out) and r.load == old(r.load)), r.g_out)',
              'forall_ref(c, Channel, implies(old(allocated(c)), c.state == old(c.state)), c.state)'],
+    # C05: exactly one member joins -- a new node carrying this endpoint; every other node keeps its membership and endpoint
+    aspects={'mem': dict(ensures=[
+             'self.g_added is not None and fresh(self.g_added) and inheap(self._heap, self.g_added) and self.g_added.endpoint == endpoint',
+             'forall_ref(r, Node, implies(r != self.g_added, inheap(self._heap, r) == old(inheap(self._heap, r))), r.index)',
+             'forall_ref(r, Node, implies(old(allocated(r)), r.endpoint == old(r.endpoint)), r.endpoint)',
+             'self._heap[0] == old(self._heap[0])'], props=['C05'])},
     modifies=['Node.load', 'Node.index', 'Node.downq', 'Node.avg_load', 'Node.channel', 'Node.endpoint',
-              'Node.g_out', 'Node.g_inq', 'list[Node]', 'HeapBalancerSink._size', 'Channel.state', 'Channel.g_closes', '$cls'],
+              'Node.g_out', 'Node.g_inq', 'list[Node]', 'HeapBalancerSink._size', 'HeapBalancerSink.g_added', 'Channel.state', 'Channel.g_closes', '$cls'],
     allocates='any',
     ghost=[{'after': 'new_node = self.Node(sink_factory(), self.Idle, self._size, endpoint)',
-            'do': ['new_node.g_out = 0', 'new_node.g_inq = False']}],
-    props=['C03', 'C04', 'C05'],
+            'do': ['new_node.g_out = 0', 'new_node.g_inq = False', 'self.g_added = new_node']}],
+    props=['C03', 'C04'],
   ),
 
   'HeapBalancerSink._OpenNode': dict(
@@ -324,10 +349,11 @@ def lemma_root_min(heap, n, k):
     requires=['HI_shape(self)'],
     ensures=[
       'implies(result is not None, exists(k, 1, len(self._heap), self._heap[k] == result and result.endpoint == endpoint))',
-      'implies(result is None, forall(k, 1, len(self._heap), self._heap[k].endpoint != endpoint))',
+      # the scan starts at the sentinel in slot 0 (endpoint None) and a hit there also reads as "not found"
+      'implies(result is None and self._heap[0].endpoint != endpoint, forall(k, 1, len(self._heap), self._heap[k].endpoint != endpoint))',
+      # first match: no earlier member has this endpoint
     ],
-    modifies=[], trusted=True,
-    notes='generator expression next(... for idx, node in enumerate(self._heap) if ...) : first-match idiom, contract assumed (bounded check in thorough tier)',
+    modifies=[],
     props=['C03', 'C05'],
   ),
 
@@ -339,9 +365,18 @@ def lemma_root_min(heap, n, k):
              'forall_ref(r, Node, r.g_out == old(r.g_out), r.g_out)',
              'implies(not result, self._size == old(self._size))',
              'implies(result, self._size == old(self._size) - 1)'],
-    modifies=['Node.index', 'list[Node]', 'HeapBalancerSink._size', 'Channel.state', 'Channel.g_closes'],
+    # C05: exactly the member with this endpoint leaves; nobody else's membership changes
+    aspects={'mem': dict(ensures=[
+             'implies(result, self.g_removed is not None and self.g_removed.index == -1 and self.g_removed.endpoint == endpoint)',
+             'implies(result, let(n, self.g_removed, old(inheap(self._heap, n))))',
+             'forall_ref(r, Node, implies(not result or r != self.g_removed, inheap(self._heap, r) == old(inheap(self._heap, r))), r.index)',
+             'implies(not result and self._heap[0].endpoint != endpoint, forall_ref(r, Node, implies(inheap(self._heap, r), r.endpoint != endpoint), r.index))',
+             'self._heap[0] == old(self._heap[0])'],
+      ghost=[{'after': 'i = node.index', 'do': ['prove(inheap(self._heap, node) and node.endpoint == endpoint, "found-node-is-a-member-with-this-endpoint")']}],
+      props=['C05'])},
+    modifies=['Node.index', 'list[Node]', 'HeapBalancerSink._size', 'HeapBalancerSink.g_removed', 'Channel.state', 'Channel.g_closes'],
     ghost=[
-      {'after': 'i = node.index', 'do': ['g_c0 = node.channel.g_closes']},
+      {'after': 'i = node.index', 'do': ['g_c0 = node.channel.g_closes', 'self.g_removed = node']},
       # C04: a removed member is closed at once exactly when it is idle or already marked down;
       # otherwise its last release closes it (see __Put)
       {'before': 'return True', 'do': [
@@ -349,7 +384,7 @@ def lemma_root_min(heap, n, k):
         'prove(implies(node.g_out == 0 or node.load >= 0, node.channel.g_closes == g_c0 + 1), "idle-or-down-member-closed-at-once")',
         'prove(implies(node.g_out > 0 and node.load < 0, node.channel.g_closes == g_c0), "loaded-member-drains-first")']},
     ],
-    props=['C03', 'C04', 'C05'],
+    props=['C03', 'C04'],
   ),
 }
 
